@@ -257,8 +257,10 @@ def safe_filename(filename, os_type='unix', no_control=True, ascii_only=True,
             )
 
         encoder = _encoder_cache[encoder_args]
-        encoded_filename = filename.encode(encoding)
-        new_filename = encoder.quote(encoded_filename).decode(encoding)
+        # Undecodable bytes of names from FTP listings are surrogate escapes
+        encoded_filename = filename.encode(encoding, 'surrogateescape')
+        new_filename = encoder.quote(encoded_filename).decode(
+            encoding, 'surrogateescape')
 
         if no_control and not ascii_only:
             # The C1 control characters are multi-byte in most encodings and
@@ -277,7 +279,8 @@ def safe_filename(filename, os_type='unix', no_control=True, ascii_only=True,
             )
 
     if max_length and len(new_filename) > max_length:
-        hash_obj = hashlib.sha1(new_filename.encode(encoding))
+        hash_obj = hashlib.sha1(
+            new_filename.encode(encoding, 'surrogateescape'))
         new_length = max(0, max_length - 8)
         new_filename = '{0}{1}'.format(
             new_filename[:new_length], hash_obj.hexdigest()[:8]
